@@ -22,14 +22,8 @@ def Ver.requestable (v : Ver) : Prop := v = .latest ∨ ∃ n, v = .mm 1 n
 
 end PSA
 
+
 namespace PSA
 theorem C03_privileged_nil (v : Ver) (p : Pod) : evalPodModel Generated.tables false ⟨.privileged, v⟩ p = [] := by
   simp [evalPodModel, Registry.evaluate]
-
-theorem C02_restricted_iff (v : Ver) (p : Pod) (hv : v.requestable) (hp : ApiValid p) :
-    (aggregate (evalPodModel Generated.tables false ⟨.restricted, v⟩ p)).allowed = true ↔
-      Std.restricted Std.publishedTables (clampV 32 v) p := by
-  have ht : Generated.tables = Std.publishedTables := by decide
-  rw [evalPodModel_allowed, ht]
-  exact PSA.C02_restricted _ ⟨by decide, by decide⟩ v p hv ((apiValid_tables _ rfl p).mp hp)
 end PSA
